@@ -13,6 +13,8 @@ def closure_table(P, cl):
 
 def run(chk, ctx):
     P = Prog(ctx["facts"])
+    from . import eqrules
+    eqrules.require(chk, P, ["Signal"], "`output.signal == signal` identifies the signal (name, width and direction all equal)")
     L = panrules.Lemmas(P, chk)
     chk.explanation = ("C13 decided as: ORG (the driver's Err payload flows, by moves only, through `?` and the derived From<T> for IterationError<T> = Driver(source), and through next()'s Err arm, to the caller); "
                        "CNT (one driver call per next(), nothing prefetched: the failing call's next() returns the error and earlier rows are unaffected); "
